@@ -108,6 +108,11 @@ let check_line (line : string) : unit =
       let real_reads = if get "reads" = "-" then [] else List.map int_of_string (split_on ',' (get "reads")) in
       let real_writes = if get "writes" = "-" then [] else List.map int_of_string (split_on ',' (get "writes")) in
       if get "fetch" = "ok" then begin
+        (* a value whose members need the same existing resource exclusively and once more (W/W or W/R inside the type)
+           cannot hold exactly its declared borrows: the fetch has to panic *)
+        List.iter (fun k ->
+            let nw = List.length (List.filter (fun x -> x = k) real_writes) in
+            if List.mem k present && (nw >= 2 || (nw >= 1 && List.mem k real_reads)) then oracle "conflicting_members_fetched") (List.init nres (fun i -> i));
         let alive = get "alive" in
         String.iteri (fun k c ->
             let want = if not (List.mem k present) then '-' else if List.mem k real_writes then '2' else if List.mem k real_reads then '1' else '0' in
